@@ -619,6 +619,13 @@ fn parse_lines<'a>(
                                 ));
                             }
                         }
+                        if let Operation::Custom(_) = op {
+                            context
+                                .common_context
+                                .messages_before_calls
+                                .borrow_mut()
+                                .push(context.messages.borrow().len());
+                        }
                         context.last_segment().unwrap().borrow_mut().items.push((
                             CodePoint { line_num, num: 2 },
                             Item::Instruction(op, op_args),
